@@ -249,34 +249,41 @@ Variable sm : sessmap.
 
 Definition race_init (s : store) : rstate := mkR (mkState s None 0) 0 [] [].
 
-(* Along every race history the numbering invariant of c01_invariant holds for the store and the
-   registered instance, and every unregistered instance is marked deleted. *)
-Theorem c01_race_invariant : forall s h r outs, fresh s ->
+(* [forallb mid_free h = true]: no unregistration lands INSIDE a publish handler of the instance
+   being unregistered (between its isInactive check and its Save).  The handlers of one instance
+   are atomic with respect to each other, not with respect to the hub goroutine, which writes the
+   status bits; histories with such a step (RHubUnregMid ... RZFinish) refute the statement, see
+   c01_race_no_number_issued_twice_refuted below. *)
+
+(* Along every such race history the numbering invariant of c01_invariant holds for the store and
+   the registered instance, and every unregistered instance is marked deleted. *)
+Theorem c01_race_invariant : forall s h r outs, fresh s -> forallb mid_free h = true ->
   rrun dr nr sm true (race_init s) h = Some (r, outs) ->
-  inv_num (r_x r) /\ Forall (fun z => z_deleted z = true) (r_zomb r).
+  inv_num (r_x r) /\ Forall (fun z => z_deleted z = true /\ z_inflight z = None) (r_zomb r).
 Proof.
-  intros s h r outs F R. destruct (rrun_inv dr nr sm h _ _ _ (rinv_init s F) R) as [A [B _]]. split; assumption.
+  intros s h r outs F M R. destruct (rrun_inv dr nr sm h _ _ _ (rinv_init s F) M R) as [A [B _]]. split; assumption.
 Qed.
 
-(* No number is issued twice: along every race history a number whose store.Messages.Save
-   succeeded is never passed to Save again - by either instance (a number whose Save FAILED is
-   passed again by the next publish: "a publish whose save failed consumes no number"). *)
-Theorem c01_race_no_number_issued_twice : forall s h r outs, fresh s ->
+(* No number is issued twice: a number whose store.Messages.Save succeeded is never passed to
+   Save again - by either instance (a number whose Save FAILED is passed again by the next
+   publish: "a publish whose save failed consumes no number"). *)
+Theorem c01_race_no_number_issued_twice_partial : forall s h r outs, fresh s -> forallb mid_free h = true ->
   rrun dr nr sm true (race_init s) h = Some (r, outs) -> issue_ok (r_issued r).
 Proof.
-  intros s h r outs F R. destruct (rrun_inv dr nr sm h _ _ _ (rinv_init s F) R) as [_ [_ [_ K]]]. exact K.
+  intros s h r outs F M R. destruct (rrun_inv dr nr sm h _ _ _ (rinv_init s F) M R) as [_ [_ [_ K]]]. exact K.
 Qed.
 
 (* ... because the unregistered instance refuses: every {pub} it handles is answered with one
    503 to the publisher and changes nothing (store, registered instance, issue log). *)
 Theorem c01_race_old_instance_refuses : forall s h r outs i z sid content noecho, fresh s ->
+  forallb mid_free h = true ->
   rrun dr nr sm true (race_init s) h = Some (r, outs) ->
   nth_error (r_zomb r) i = Some z -> attached (z_ca z) sid = true ->
   rstep dr nr sm true r (RZPub i sid content noecho) = Some (r, [(sid, Ctrl 503 [])]).
 Proof.
-  intros s h r outs i z sid content noecho F R NE AT.
+  intros s h r outs i z sid content noecho F M R NE AT.
   apply (zombie_refuses dr nr sm r i z); [|exact NE|exact AT].
-  exact (rrun_inv dr nr sm h _ _ _ (rinv_init s F) R).
+  exact (rrun_inv dr nr sm h _ _ _ (rinv_init s F) M R).
 Qed.
 
 (* Whatever the times at which the write loops run (any schedule of requests and dequeue steps),
@@ -304,11 +311,31 @@ Theorem c01_burst_numbers : forall ps x c, ca x = Some c -> inv_num x ->
 Proof. exact (burst_numbers dr nr sm). Qed.
 End C01Flight.
 
-(* The statement for a topicUnreg that does NOT mark the instance before telling it to exit
-   ([mark] = false) is refuted by the faithful model: the old instance accepts the queued {pub}
-   under lastID+1 and the second instance passes the same number to Save. *)
-Definition c01_race_unmarked_statement : Prop :=
+(* The full statement - every race history, including an unregistration that lands inside a
+   publish handler - is REFUTED by the faithful model (and by the real code: findings/C01.md,
+   KNOWN_FINDINGS key unregistered-mid-publish): the instance that passed its isInactive check
+   before the hub marked it saves under lastID+1, the instance loaded meanwhile passes the same
+   number to Save, in either order. *)
+Definition c01_race_no_number_issued_twice_statement : Prop :=
   forall dr nr sm s h r outs, fresh s ->
+  rrun dr nr sm true (race_init s) h = Some (r, outs) -> issue_ok (r_issued r).
+Theorem c01_race_no_number_issued_twice_refuted : ~ c01_race_no_number_issued_twice_statement.
+Proof.
+  intros H.
+  pose proof (race_witness_mid_issued true) as W. cbn [option_map] in W.
+  destruct (rrun (fun _ _ => None) (fun x => x) [(1%N, 1%N); (2%N, 1%N)] true
+                 (mkR (mkState race_witness_store None 0) 0 [] []) (race_witness_mid true)) as [[r outs]|] eqn:R; [|discriminate].
+  cbn [option_map fst] in W. inversion W as [W1].
+  assert (fresh race_witness_store) as F by (split; reflexivity).
+  specialize (H _ _ _ _ _ _ _ F R). rewrite W1 in H.
+  apply (H [(1, true)] 1 false [] eq_refl). left. reflexivity.
+Qed.
+
+(* The statement for a topicUnreg that does NOT mark the instance before telling it to exit
+   ([mark] = false) is refuted even for the histories of the partial theorem: the old instance
+   accepts a {pub} queued for it under lastID+1 and the second instance passes the same number to Save. *)
+Definition c01_race_unmarked_statement : Prop :=
+  forall dr nr sm s h r outs, fresh s -> forallb mid_free h = true ->
   rrun dr nr sm false (race_init s) h = Some (r, outs) -> issue_ok (r_issued r).
 Theorem c01_race_unmarked_refuted : ~ c01_race_unmarked_statement.
 Proof.
@@ -318,12 +345,14 @@ Proof.
                  (mkR (mkState race_witness_store None 0) 0 [] []) race_witness) as [[r outs]|] eqn:R; [|discriminate].
   cbn [option_map fst] in W. inversion W as [W1].
   assert (fresh race_witness_store) as F by (split; reflexivity).
-  specialize (H _ _ _ _ _ _ _ F R). rewrite W1 in H.
+  assert (forallb mid_free race_witness = true) as M by reflexivity.
+  specialize (H _ _ _ _ _ _ _ F M R). rewrite W1 in H.
   apply (H [(1, true)] 1 false [] eq_refl). left. reflexivity.
 Qed.
 
 Print Assumptions c01_race_invariant.
-Print Assumptions c01_race_no_number_issued_twice.
+Print Assumptions c01_race_no_number_issued_twice_partial.
+Print Assumptions c01_race_no_number_issued_twice_refuted.
 Print Assumptions c01_race_old_instance_refuses.
 Print Assumptions c01_wire_independent_of_delay.
 Print Assumptions c01_burst_numbers.
